@@ -124,6 +124,9 @@ class Run(RunBase):
         if k == "add_batch":
             return all(x in self.pool for x in op["keys"]) and len(ids) == len(op["keys"]) >= 2 and \
                 not (ids & set(self.present))
+        if k == "add_copy":
+            return op["id"] in self.present and op["new_id"] not in self.present and \
+                op["new_id"] not in self.sc_known and op["new_id"] >= 5000
         if k == "remove":
             return op["id"] in self.present
         if k == "scenario_remove_list":
@@ -499,6 +502,21 @@ class Run(RunBase):
         self.present.pop(op["id"])
         return "ok"
 
+    def _op_add_copy(self, op):
+        """A lanelet derived from one that is in the network: a deep copy that gets an id of its own through the
+        public setter (a bus lane on top of a driving lane) and is added next to its source."""
+        src = self.net.find_lanelet_by_id(op["id"])
+        if src is None:
+            raise HarnessError("model says lanelet present, network cannot find it")
+
+        def f():
+            dup = copy.deepcopy(src)
+            dup.lanelet_id = op["new_id"]
+            self.net.add_lanelet(dup)
+        self._route("add_lanelet(deep copy with a new id)", f)
+        self.present[op["new_id"]] = {k: v.copy() for k, v in self.present[op["id"]].items()}
+        return "ok"
+
     def _op_scenario_remove_list(self, op):
         """Scenario.remove_lanelet([.., a lanelet the scenario does not know, ..]): the call fails half-way.  Whatever
         it removed is gone from the lookups too; what it did not reach is still found."""
@@ -757,6 +775,7 @@ def _fmt(raw):
 def _builder(rng, run, cfg):
     all_keys = sorted(run.pool)
     keys = [k for k in all_keys if k.startswith("l")]  # "x" keys reuse ids and are only offered as clashes
+    n_copy = 0
     while True:
         if run.shadow is not None and rng.chance(0.2):
             yield {"op": "swap"}
@@ -765,6 +784,10 @@ def _builder(rng, run, cfg):
         free = [k for k in keys if run.pool[k]["id"] not in run.present]
         if r == "create_from_list":
             yield {"op": r, "keys": rng.sample(keys, rng.randint(1, len(keys)))}
+        elif r == "add_one" and run.present and rng.chance(0.3):
+            n_copy += 1
+            op = {"op": "add_copy", "id": rng.pick(sorted(run.present)), "new_id": 5000 + n_copy}
+            yield op if run.enabled(op) else None
         elif r in ("add_one", "scenario_add") and free:
             cand = [k for k in free if run.enabled({"op": r, "key": k})]
             yield {"op": r, "key": rng.pick(cand)} if cand else None
@@ -888,7 +911,7 @@ class C06(Property):
                        "candidate-list-with-repeated-obstacle-id", "fork-keeps-original",
                        "continued-on-the-other-copy", "lattice-point-exactly-on-a-lanelet-border",
                        "lattice-shape-exactly-tangent-to-a-lanelet", "bystander-draw", "bystander-derive",
-                       "second-network-with-other-lanelet-ids", "route:Scenario.add_objects([.., refused])", "bounding-box-decoy-group", "list-removal-interrupted",
+                       "second-network-with-other-lanelet-ids", "route:Scenario.add_objects([.., refused])", "bounding-box-decoy-group", "list-removal-interrupted", "route:add_lanelet(deep copy with a new id)",
                        "bystander-edit-returned-lists"]
     assumptions = [
         "geometric truth comes from crkit.geom (raw vertices / parameters, shapely predicates on geometry built there) "
